@@ -361,11 +361,14 @@ type faceVariant struct {
 	name       string
 	size       float64
 	xoff, yoff int32
+	italic     float64 // FauxItalic: the glyphs are sheared about the (raised) baseline of the face, as the PDF text matrix does
 }
 
 var faceVariants = []faceVariant{
-	{"Face(12pt)", 12, 0, 0},
-	{"Face(8pt) with XOffset=37 YOffset=350 font units", 8, 37, 350},
+	{"Face(12pt)", 12, 0, 0, 0},
+	{"Face(8pt) with XOffset=37 YOffset=350 font units", 8, 37, 350, 0},
+	{"Face(12pt) with FauxItalic=0.3", 12, 0, 0, 0.3},
+	{"Face(8pt) with XOffset=37 YOffset=350 font units and FauxItalic=0.3", 8, 37, 350, 0.3},
 }
 
 func relErr(a, b float64) float64 {
@@ -393,6 +396,7 @@ func familyToPath(name string, strs []string) fw.Family {
 			v := faceVariants[vi]
 			face := src.fresh().Face(v.size, canvas.Black)
 			face.XOffset, face.YOffset = v.xoff, v.yoff
+			face.FauxItalic = v.italic
 			r.NontrivialIdx()
 			r.States++
 			glyphs := face.Glyphs(s) // the layout: glyph ids, advances, offsets
@@ -451,7 +455,10 @@ func toPathCheck(r *fw.R, src *fontSrc, face *canvas.FontFace, v faceVariant, s 
 			r.Outcome("skipped:" + err.Error())
 			return 0, 0, false
 		}
-		placeOutline(segs, affine{f, 0, 0, f, f * float64(x+int(g.XOffset)), f * float64(y+int(g.YOffset))}, &want, &wantSp)
+		// outline point (ox,oy) -> (f(x+gx+ox) + italic*f(gy+oy + y-yoff), f(y+gy+oy)): the shear is about the face's
+		// own baseline y = f*yoff, which is what PDF.RenderText's Translate(x,y).Shear(FauxItalic,0) does
+		rel := float64(y - int(v.yoff) + int(g.YOffset))
+		placeOutline(segs, affine{f, 0, v.italic * f, f, f*float64(x+int(g.XOffset)) + v.italic*f*rel, f * float64(y+int(g.YOffset))}, &want, &wantSp)
 		x += int(g.XAdvance)
 		y += int(g.YAdvance)
 		sum += int(g.XAdvance)
